@@ -13,21 +13,24 @@ from ..effects import Effects, Resolver
 from . import C15
 from .. import roles, flow, rules
 
-LEVEL_TEXT = ("static analysis: (D1) match_ref_to_sample keys both tables by their (chromosome, start, end) coordinates, reindexes the "
-              "reference on the sample's keys, and every return is dominated by a raise on duplicated coordinates (either table) and by a "
-              "raise on a null test of the reindexed rows; the result carries the sample's index; (D2) mask_bad_bins over the order positions "
-              "of log2 x {-5, 5}, spread x {1}, depth x {0}, gc x {0.3, 0.7} (constants folded from params.py), with and without the optional "
-              "columns: bad <=> not(-5 <= log2 <= 5 and spread <= 1 and depth > 0 and 0.3 <= gc <= 0.7); (D3) do_fix interpreted with the "
-              "corrections summarised: output log2 = sample log2 - matched reference log2 for target and antitarget rows alike, targets loaded "
-              "with (skip_low, gc, edge, no rmask), antitargets with (no skip_low, gc, no edge, rmask); (D4) the weight column is stored "
-              "through .clip(epsilon, 1.0) with epsilon = 1e-4; (D5) center_all(skip_low=True) runs after the last store to log2 and "
-              "before the return; (D6) center_by_window applies one seeded permutation to both the bins and the covariate, sorts by the "
-              "covariate with a stable sort, subtracts the rolling median of log2 in that order and re-sorts genomically; (D7) role-flow "
-              "of the correction flags; (D8) load_adjust_coverages interpreted over all flag / column combinations with index provenance: "
-              "sample rows are sorted (on a copy) before matching, and at return the sample and reference tables carry the same kind of "
-              "index (both filtered-in-place or both renumbered), so the label-aligned subtraction pairs each bin with its own reference "
-              "bin. (D9) edge_losses / edge_gains are the documented rational functions of target size, gap and insert size in every "
-              "order case (exact identities over symbols). Does not decide rolling-median values, depth-scale invariance or weight monotonicity.")
+LEVEL_TEXT = ('static analysis: (D1) match_ref_to_sample interpreted on literal tables (reference permuted, a superset, rows equal in start but '
+              "not in end, other index labels on both sides): the result is the reference row of every sample bin's own (chromosome, start, end),"
+              " in sample order, under the sample's index labels; duplicated coordinates in either table and a sample bin missing from the "
+              'reference raise; (D2) mask_bad_bins over the order positions of log2 x {-5, 5}, spread x {1}, depth x {0}, gc x {0.3, 0.7} '
+              '(constants folded from params.py), with and without the optional columns: bad <=> not(-5 <= log2 <= 5 and spread <= 1 and depth > '
+              '0 and 0.3 <= gc <= 0.7); (D3) do_fix interpreted with the corrections summarised: output log2 = sample log2 - matched reference '
+              'log2 for target and antitarget rows alike, targets loaded with (skip_low, gc, edge, no rmask), antitargets with (no skip_low, gc, '
+              'no edge, rmask); (D4) apply_weights interpreted with symbolic bin sizes / variances on targets and antitargets, pooled and flat '
+              'reference: the interval of every stored weight lies inside [1e-4, 1] (epsilon default 1e-4, not overridden by do_fix); (D5) do_fix'
+              ' centres last (apply_weights, then center_all(skip_low=True, PAR genome), nothing stored afterwards -- decided in the D3 table), '
+              'and center_all itself shifts by one constant estimated from the covered autosomal bins (C15-D1 rule); (D6) center_by_window '
+              'applies one seeded permutation to both the bins and the covariate, sorts by the covariate with a stable sort, subtracts the '
+              'rolling median of log2 in that order and re-sorts genomically; (D7) role-flow of the correction flags; (D8) load_adjust_coverages '
+              'interpreted over all flag / column combinations with index provenance: sample rows are sorted (on a copy) before matching, and at '
+              'return the sample and reference tables carry the same kind of index (both filtered-in-place or both renumbered), so the label-'
+              'aligned subtraction pairs each bin with its own reference bin. (D9) edge_losses / edge_gains are the documented rational functions'
+              ' of target size, gap and insert size in every order case (exact identities over symbols). Does not decide rolling-median values, '
+              'depth-scale invariance or weight monotonicity.')
 TECHNIQUE = "dominance (must-pass-through); abstract interpretation over order positions and over index-provenance tags; structural dataflow of the windowed correction; role-flow"
 
 FIX = "cnvlib.fix"
